@@ -14,6 +14,16 @@ for f in $REPO/compat/libc/string/*.c; do
     par igc_one $BUILD/shim $o $f
     OBJS="$OBJS $o"
 done
+# re-entrancy run: the same sources under ThreadSanitizer (prefixed the same way, __tsan_* mapped back), two threads on the
+# controlled scheduler; sched.cpp and mc.cpp stay uninstrumented so TSan sees only what the code under test does
+TOBJS=""
+for f in $REPO/compat/libc/string/*.c; do
+    o=$BUILD/tsan_$(basename $f .c).o
+    IGC_CFLAGS="-fsanitize=thread -fno-omit-frame-pointer" IGC_OPT=-O1 par igc_one $BUILD/shim $o $f
+    TOBJS="$TOBJS $o"
+done
+par g++ -std=c++17 -O1 -g -fsanitize=thread -fno-omit-frame-pointer -I$MC -I$H -c $H/c08_reentrancy.cpp -o $BUILD/h_tsan.o
+par g++ -std=c++17 -O2 -g -I$MC -c $MC/sched/sched.cpp -o $BUILD/sched.o
 CXX="g++ -std=c++17 -O2 -g -fno-builtin -I$MC -I$H"
 for t in c08_common c08_str c08_mem c08_tok; do par $CXX -c $H/$t.cpp -o $BUILD/$t.o; done
 par g++ -std=c++17 -O2 -c -I$MC $MC/mc.cpp -o $BUILD/mc.o
@@ -24,4 +34,6 @@ for fn in memcpy memmove memset memcmp memchr memrchr strlen strnlen strcpy strn
     nm $OBJS | grep -q " [TW] igc_$fn\$" || { echo "igc_$fn is not defined by the repository sources"; exit 1; }
 done
 g++ $BUILD/c08_common.o $BUILD/c08_str.o $BUILD/c08_mem.o $BUILD/c08_tok.o $OBJS $BUILD/mc.o -o $BUILD/c08
+g++ -fsanitize=thread $BUILD/h_tsan.o $TOBJS $BUILD/sched.o $BUILD/mc.o -ldl -lpthread -o $BUILD/c08_tsan
 echo "strings $BUILD/c08" > $BUILD/runs.txt
+echo "reentrancy $BUILD/c08_tsan" >> $BUILD/runs.txt
